@@ -65,7 +65,7 @@ class C07(Check):
                               'W': [[g(-24, 24) if rng.random() < 0.8 else 0.0 for _ in range(pops[s]['n'])] for _ in range(pops[t]['n'])]})
             return {'mode': 'conn', 'spec': {'pops': pops, 'conns': conns}, 'ops': [],
                     'cfg': {'dt': rng.choice([1e-3, 0.01]), 'steps': rng.randint(8, 30), 'vectorize': rng.random() < 0.8}}
-        spec = models.gen_aliased(rng, build=rng.choice(['python', 'python', 'yaml']))
+        spec = models.gen_aliased(rng, build=rng.choice(['python', 'python', 'yaml']), readouts=0.4 if rng.random() < 0.35 else 0.0)
         if rng.random() < 0.35:
             models.add_edge_templates(rng, spec, p=0.6)
         flat_nodes, flat_edges = models.flatten(spec)
